@@ -296,9 +296,44 @@ def to_z3(root: Node):
     return root.z
 
 
-def _conv(n):
-    op = n.op
-    a = n.args
+def to_z3_abstract(root: Node, cache: dict):
+    """over-approximation: every product of two non-constant terms becomes a fresh real (one per node, so equal
+    products stay equal).  unsat of the abstraction implies unsat of the original; nothing else is concluded."""
+    stack = [root]
+    while stack:
+        n = stack[-1]
+        if n.uid in cache:
+            stack.pop()
+            continue
+        if n.op == "mul" and not is_const(n.args[0]) and not is_const(n.args[1]):
+            cache[n.uid] = z3.Real(f"abs!{n.uid}")
+            stack.pop()
+            continue
+        pending = [a for a in n.args if isinstance(a, Node) and a.uid not in cache]
+        if pending:
+            stack.extend(pending)
+            continue
+        stack.pop()
+        cache[n.uid] = _conv(n, lambda x: cache[x.uid])
+    return cache[root.uid]
+
+
+def _conv(n, z=None):
+    if z is not None:
+        class _A:  # argument view whose .z is looked up in the caller's cache
+            __slots__ = ("n",)
+
+            def __init__(self, n):
+                self.n = n
+
+            @property
+            def z(self):
+                return z(self.n)
+        op = n.op
+        a = tuple(_A(x) if isinstance(x, Node) else x for x in n.args)
+    else:
+        op = n.op
+        a = n.args
     if op == "const":
         v = a[0]
         if n.sort == "I":
@@ -405,6 +440,8 @@ def _structural_sign(n: Node):
         name = n.args[0]
         if name.startswith("sqrt!") or name.startswith("root!"):
             return "0+"
+        if name in POSVARS:
+            return "+"
         return None
     if op == "mul":
         a, b = n.args
@@ -515,8 +552,15 @@ def _mulq(a, b):
     return mul(a, b)
 
 
+POSVARS = set()  # names of variables assumed > 0 (canonical mode only; see symx/poly.py)
+
+
 def mkreal(n, d, v):
     """normalise: constant denominators folded away"""
+    if _poly.ON[0] and not is_const(n):
+        r = _poly.canon(n, d)
+        if r is not None:
+            n, d = r
     if d is not None and is_const(d):
         c = cval(d)
         n = mul(n, rconst(1 / c))
@@ -821,13 +865,30 @@ def fdiv(a, b):
     return mkreal(n, d, av / bv)
 
 
+def iroot(n: int, k: int) -> int:
+    """integer k-th root (nearest from below) in exact integer arithmetic: no float overflow for huge n"""
+    if n < 2:
+        return n
+    if k == 2:
+        return math.isqrt(n)
+    hi = 1 << ((n.bit_length() + k - 1) // k)
+    lo = 0
+    while lo < hi:
+        mid = (lo + hi + 1) // 2
+        if mid**k <= n:
+            lo = mid
+        else:
+            hi = mid - 1
+    return lo
+
+
 def nthroot(x: SymReal, k: int):
     """principal k-th root as a fresh variable with its definition in the defs store"""
     if x.is_constant():
         f = x.v
         if f >= 0:
-            num = round(f.numerator ** (1.0 / k))
-            den = round(f.denominator ** (1.0 / k))
+            num = iroot(f.numerator, k)
+            den = iroot(f.denominator, k)
             if num**k == f.numerator and den**k == f.denominator:
                 return SymReal(rconst(Fraction(num, den)), None, Fraction(num, den))
     if not bool(x >= 0):
@@ -1102,3 +1163,6 @@ def sym_value(x):
 
 def is_sym(x):
     return isinstance(x, (SymReal, SymInt, SymBool))
+
+
+from . import poly as _poly  # noqa: E402  (poly imports core)
